@@ -34,6 +34,9 @@ type PropSpec struct {
 	Assumptions    []string          `json:"assumptions"`
 	NotDecided     []string          `json:"not_decided"`
 	Bounded        []string          `json:"bounded"`
+	// BoundedChecks: bounded stand-ins (replay driver cases run on the tree as it is, in every tier) for functions the
+	// verifier cannot reach; a witness is a violation, a pass is reported as bounded and never counted as proved
+	BoundedChecks []BoundedCheck `json:"bounded_checks"`
 	Replay         []ReplayRule      `json:"replay"`
 	Explanation    string            `json:"explanation"`
 	MinObligations int               `json:"min_obligations"`
@@ -51,6 +54,12 @@ type PropSpec struct {
 	SweepExclude map[string]string `json:"sweep_exclude"`
 	PinnedFile   string            `json:"pinned_file"`   // JSON map obligation -> clause text (in spec/)
 	PinnedLabels []string          `json:"pinned_labels"` // labels (ensures:<label>) of pinned_file that this property pins
+}
+
+type BoundedCheck struct {
+	ReplayRule
+	Functions []string `json:"functions"` // the functions the driver case stands in for
+	Bound     string   `json:"bound"`     // what is enumerated / sampled
 }
 
 type Finding struct {
@@ -554,6 +563,7 @@ func (s *Session) RunCheck(ps *PropSpec, opts CheckOpts) int {
 	os.RemoveAll(outDir)
 	exit := 0
 	var violLines []string
+	var boundedFailed []string
 	replayCache := map[string][3]string{} // one run of a driver case per check
 	for _, v := range viols {
 		os.MkdirAll(outDir, 0o755)
@@ -605,6 +615,38 @@ func (s *Session) RunCheck(ps *PropSpec, opts CheckOpts) int {
 		}
 		violLines = append(violLines, line)
 		exit = 1
+	}
+	// bounded stand-ins: driver cases run on the tree as it is in every tier; a witness is a violation of its own
+	var bounded []map[string]interface{}
+	for i := range ps.BoundedChecks {
+		bc := &ps.BoundedChecks[i]
+		t0 := time.Now()
+		wit, cmd, log := s.runReplayDriver(opts, &bc.ReplayRule, "")
+		name := "bounded:" + bc.Driver + ":" + bc.Case
+		ent := map[string]interface{}{"check": name, "functions": bc.Functions, "bound": bc.Bound, "time_s": round2(time.Since(t0).Seconds()),
+			"kind": "bounded stand-in: the real functions run on an enumerated / sampled input set; NOT counted as proved"}
+		switch {
+		case wit != "":
+			ent["result"] = "WITNESS: " + wit
+			os.MkdirAll(outDir, 0o755)
+			file := filepath.Join(outDir, safeFile(name)+".json")
+			rp := map[string]interface{}{"property": ps.ID, "obligation": name, "reason": "the bounded stand-in finds a failing input on the real code", "tier": opts.Tier,
+				"failing_input": wit, "go_test_cmd": cmd, "driver_output": log, "confirmed_on_real_code": true, "functions": bc.Functions}
+			data, _ := json.MarshalIndent(rp, "", " ")
+			os.WriteFile(file, data, 0o644)
+			violLines = append(violLines, fmt.Sprintf("VIOLATION property=%s replay=%s", ps.ID, file))
+			boundedFailed = append(boundedFailed, name+": "+wit)
+			exit = 1
+		case !strings.Contains(log, "NOWITNESS"):
+			ent["result"] = "driver did not run to completion"
+			engineProblems = append(engineProblems, "bounded stand-in "+name+" did not run to completion: "+lastLines(log, 3))
+		default:
+			ent["result"] = "no witness"
+		}
+		bounded = append(bounded, ent)
+	}
+	if bounded != nil {
+		cov["bounded_checks"] = bounded
 	}
 	// thorough tier: every replay driver of the property is also run on the tree as it is (bounded sampling of
 	// the real functions against the executable copies of the clauses). A witness found while every obligation
@@ -658,7 +700,7 @@ func (s *Session) RunCheck(ps *PropSpec, opts CheckOpts) int {
 		}
 	}
 	ev := &Evidence{PropertyID: ps.ID, Tier: opts.Tier, Seed: opts.Seed, Level: ps.Level, Coverage: cov,
-		Assumptions: append([]string(nil), ps.Assumptions...), WallS: round2(time.Since(start).Seconds() + s.LoadTime), Violations: len(viols)}
+		Assumptions: append([]string(nil), ps.Assumptions...), WallS: round2(time.Since(start).Seconds() + s.LoadTime), Violations: len(viols) + len(boundedFailed)}
 	evDir := filepath.Join(opts.VerifDir, "evidence")
 	os.MkdirAll(evDir, 0o755)
 	data, _ := json.MarshalIndent(ev, "", " ")
@@ -687,13 +729,24 @@ func (s *Session) RunCheck(ps *PropSpec, opts CheckOpts) int {
 	for _, v := range viols {
 		fmt.Printf("  failed: %s: %s\n", v.Name, v.Reason)
 	}
+	for _, b := range boundedFailed {
+		fmt.Printf("  failed: %s\n", b)
+	}
 	for _, l := range violLines {
 		fmt.Println(l)
 	}
-	if len(viols) > 0 {
+	if len(viols) > 0 || len(boundedFailed) > 0 {
 		return 1
 	}
 	return exit
+}
+
+func lastLines(s string, n int) string {
+	ls := strings.Split(strings.TrimSpace(s), "\n")
+	if len(ls) > n {
+		ls = ls[len(ls)-n:]
+	}
+	return strings.Join(ls, " | ")
 }
 
 func shortAll(xs []string) []string {
